@@ -707,6 +707,12 @@ func (p *CaseForm) typecheckForm(gammaNameTypesCtx NamesTypesCtx, providerShadow
 				return TypeErrorf("branch labelled '%s' does not match the branches of type '%s'", curBranchForm.StringShort(), providerBranchCaseType.String())
 			}
 
+			// The name under which the provider continues must be fresh: every occurrence of it in
+			// the branch becomes the provider at run time, so it may not hide a name that is still in scope
+			if nameTypeExists(gammaNameTypesCtx, curBranchForm.payload_c.Ident) {
+				return TypeErrorf("variable name '%s' is already defined. Use unique name in %s", curBranchForm.payload_c.String(), curBranchForm.StringShort())
+			}
+
 			// Set type
 			curBranchForm.payload_c.Type = types.Unfold(expectedBranchType.SessionType, labelledTypesEnv)
 
